@@ -15,9 +15,9 @@ INT_MIN, INT_MAX = -2147483648, 2147483647
 
 
 def drivers(vlib):
-    # -fno-sanitize=alignment while F35 is open (misaligned multi-byte reads of the MsgPack reader, property C02)
+    # full ASan+UBSan incl. the alignment check (F35, misaligned reads of the MsgPack reader, was fixed by ebf776b)
     impl = vlib.build_cpp("drv_arch", ["drv_arch.cpp"] + vlib.repo_sources("src/msgpack/*.cpp", "src/csv/*.cpp", "src/common/*.cpp"),
-                          extra=["-fno-sanitize=alignment"])
+                          libs=["-lpugixml"])
     model = vlib.build_model("arch")
     return impl, model
 
